@@ -39,8 +39,82 @@ func TestC06(t *testing.T) {
 	}
 	close(jobs)
 	wg.Wait()
+	// long messages: the integrity check covers every octet of them too
+	for _, et := range allEtypes {
+		for _, l := range []int{16400, 40000} {
+			c06Large(pool.Get(0), v, NewRNG(seed*7+uint64(et)+uint64(l)), et, l)
+		}
+	}
 	v.ModelAsks = pool.Asked()
 	v.Write(t)
+}
+
+// c06Large: a message of l octets: the original decrypts (model asked once), and a bit flipped in every 1 KiB
+// stretch, in each of the last 64 octets before the tag, a 4 KiB or 16-octet piece cut out or doubled anywhere
+// is refused.
+func c06Large(m *Model, v *Verdict, rng *RNG, et int32, l int) {
+	key := randKey(rng, et)
+	pt := rng.Bytes(l)
+	usage := uint32(3)
+	ct, err, pan := goEncrypt(et, key, pt, usage)
+	if err != nil || pan != "" {
+		v.Violate("failing-input", fmt.Sprintf("c06:encrypt-fails:et=%d", et), "EncryptMessage failed on a long message", map[string]string{"et": itoa(et), "key": X(key), "length": itoa(l)})
+		return
+	}
+	want := "ok " + X(des3Padded(et, pt))
+	check := func(kind string, c []byte, mustReject bool) bool {
+		got := decRes(goDecrypt(et, key, c, usage))
+		v.Case(fmt.Sprintf("%d/long-%d/%s", et, l, kind), "long message: "+kind)
+		if mustReject == (got == "none") && (mustReject || got == want) {
+			return true
+		}
+		what := "a long ciphertext that was changed is accepted"
+		if !mustReject {
+			what = "a genuine long ciphertext is not decrypted to its plaintext"
+		}
+		v.Violate("failing-input", fmt.Sprintf("c06:long-%s:et=%d", kind, et), what, map[string]string{"et": itoa(et), "key": X(key), "usage": itoa(usage), "length": itoa(l), "go": cut(got, 80), "orig_ct": X(ct), "ct": X(c)})
+		return false
+	}
+	if !check("original", ct, false) {
+		return
+	}
+	if mr := m.Ask(fmt.Sprintf("cr.dec %d %s %d %s", et, X(key), usage, X(ct))); mr != want {
+		v.Violate("correspondence", fmt.Sprintf("c06:model-differs:long:et=%d", et), "Spec.decrypt and DecryptMessage disagree on a long message", map[string]string{"et": itoa(et), "key": X(key), "length": itoa(l), "ct": X(ct), "model": cut(mr, 80)})
+		return
+	}
+	flip := func(i int) bool {
+		c := append([]byte{}, ct...)
+		c[i] ^= 1 << uint(rng.Intn(8))
+		return check("bitflip", c, true)
+	}
+	for base := 0; base < len(ct); base += 1024 {
+		if !flip(base + rng.Intn(min(1024, len(ct)-base))) {
+			return
+		}
+	}
+	tag := specMacLen(et)
+	for i := len(ct) - tag - 64; i < len(ct)-tag; i++ {
+		if i >= 0 && !flip(i) {
+			return
+		}
+	}
+	for _, n := range []int{16, 4096} {
+		for k := 0; k < 6; k++ {
+			at := rng.Intn(len(ct) - tag - n)
+			if k == 0 {
+				at = len(ct) - tag - n // the last piece before the tag
+			}
+			at -= at % 8
+			cutOut := append(append([]byte{}, ct[:at]...), ct[at+n:]...)
+			if !check(fmt.Sprintf("piece-of-%d-removed", n), cutOut, true) {
+				return
+			}
+			doubled := append(append(append([]byte{}, ct[:at+n]...), ct[at:at+n]...), ct[at+n:]...)
+			if !check(fmt.Sprintf("piece-of-%d-doubled", n), doubled, true) {
+				return
+			}
+		}
+	}
 }
 
 func c06Case(m *Model, v *Verdict, rng *RNG, et int32, l int) {
